@@ -183,24 +183,40 @@ def run(ctx):
                 "non-trivial = call that reaches a kernel (num variables >= 1)")
     nsh = NWORKERS
 
-    # ---- single calls on the asan build
+    # ---- single calls on the asan build, twice: fresh heap memory filled with 0x00 resp. 0xCD by the allocator.
+    #      A result that differs between the two runs depends on memory the extension never initialised.
     def work_single(k):
         part = [(i, s) for i, s in enumerate(specs) if i % nsh == k]
-        res, crashes = drive("asan", "single", [s for _, s in part])
-        return [(part[j][0], kind, loc, tape, err) for j, kind, loc, tape, err in crashes], len(res)
+        out = []
+        for fill in ("0", "205"):
+            env = {"ASAN_OPTIONS": cbuild.asan_env()["ASAN_OPTIONS"] + ":malloc_fill_byte=%s:max_malloc_fill_size=1048576" % fill}
+            res, crashes = drive("asan", "single", [s for _, s in part], env_extra=env)
+            out.append(({part[j][0]: v for j, v in res.items()}, [(part[j][0], kind, loc, tape, err) for j, kind, loc, tape, err in crashes]))
+        return out
     done = 0
-    for crashes, n in pmap(work_single, range(nsh)):
-        done += n
-        for i, kind, loc, tape, err in crashes:
+    for (res0, crashes0), (res1, crashes1) in pmap(work_single, range(nsh)):
+        done += len(res0) + len(res1)
+        seen_crash = set()
+        for i, kind, loc, tape, err in crashes0 + crashes1:
+            if i in seen_crash:
+                continue
+            seen_crash.add(i)
             s = specs[i]
             st.violation("%s|%s|%s|%s" % (s["fn"], model_class(s), kind, loc), {"mode": "single", "spec": s},
                          "C17 %s on the ASan/UBSan build: %s at %s\n%s" % (s, kind, loc, _tail(err)))
+        for i in res0:
+            s = specs[i]
+            if s["seed"] is not None and i in res1 and res0[i] != res1[i]:
+                st.violation("%s|uninitialised-memory-influences-result|%s" % (s["fn"], "init-given" if s["init"] != "none" else "init-random"),
+                             {"mode": "fill", "spec": s},
+                             "C17 %s: with a fixed seed the result depends on the byte the allocator puts into fresh heap memory (0x00: %s ; 0xCD: %s): "
+                             "the extension reads memory it never initialised" % (s, res0[i][:200], res1[i][:200]))
     st.states += len(specs)
     st.evaluations += len(specs)
-    st.transitions += len(specs)
+    st.transitions += 2 * len(specs)
     st.traces += done
     st.nontrivial += len(specs)
-    ctx.log("single calls: %d executed cleanly of %d" % (done, len(specs)))
+    ctx.log("single calls: %d clean executions of %d calls x 2 heap fill patterns" % (done, len(specs)))
 
     # ---- ordered pairs in one process
     alone = {}
@@ -318,6 +334,17 @@ def replay(case):
         res, crashes = drive("asan", "single", [case["spec"]])
         s = case["spec"]
         return [("%s|%s|%s|%s" % (s["fn"], model_class(s), kind, loc), "C17 %s: %s at %s" % (s, kind, loc)) for _, kind, loc, tape, err in crashes]
+    if mode == "fill":
+        s = case["spec"]
+        outs = []
+        for fill in ("0", "205"):
+            env = {"ASAN_OPTIONS": cbuild.asan_env()["ASAN_OPTIONS"] + ":malloc_fill_byte=%s:max_malloc_fill_size=1048576" % fill}
+            res, crashes = drive("asan", "single", [s], env_extra=env)
+            outs.append(res.get(0))
+        if outs[0] != outs[1]:
+            return [("%s|uninitialised-memory-influences-result|%s" % (s["fn"], "init-given" if s["init"] != "none" else "init-random"),
+                     "C17 %s: result depends on the allocator's fill byte: %s vs %s" % (s, str(outs[0])[:200], str(outs[1])[:200]))]
+        return []
     if mode == "pairs":
         res, crashes = drive("asan", "pairs", [[case["first"], case["second"]]])
         out = []
